@@ -892,6 +892,16 @@ static std::string summarize_report(const std::string & err)
    return kind + " in " + fn;
 }
 
+// The parsers never block, so "hangs" means "burns CPU without producing a result":  the watchdog counts the CPU time
+// of this process (ITIMER_PROF), which a loaded machine does not inflate, with a wall-clock backstop fifteen times longer.
+static void arm_watchdog(unsigned seconds)
+{
+   struct itimerval it; memset(&it, 0, sizeof(it));
+   it.it_value.tv_sec = seconds;
+   (void) setitimer(ITIMER_PROF, &it, NULL);
+   alarm(seconds*15);
+}
+
 template<class F> static void isolated(int k, const char * what, unsigned watchdog, F body)
 {
    fflush(stdout);
@@ -900,7 +910,7 @@ template<class F> static void isolated(int k, const char * what, unsigned watchd
    if (pid == 0)
    {
       close(pe[0]); dup2(pe[1], 2); close(pe[1]);
-      alarm(watchdog);
+      arm_watchdog(watchdog);
       std::ostringstream o, orc;
       body(o, orc);
       fputs(o.str().c_str(), stdout); fputs(orc.str().c_str(), stdout); fflush(stdout);
@@ -925,6 +935,7 @@ int main(int, char **)
    SetConsoleLogToStderr(true);
    SetConsoleLogLevel(MUSCLE_LOG_CRITICALERROR);   // "ASSERTION FAILED: ..." lines identify a deliberate abort (MCRASH)
    signal(SIGALRM, on_alarm);
+   signal(SIGPROF, on_alarm);
    (void) __sanitizer_install_malloc_and_free_hooks(malloc_hook, free_hook);
    {bool ok; MessageRef km = known_msg(); g_knownFlat = flatten_exact(*km(), ok);}
    // warm the object pools so their first slabs are not charged to the first case
@@ -943,7 +954,7 @@ int main(int, char **)
       for (size_t i=0; i<chunkHex.size(); i++) {if (chunkHex[i].empty()) continue; Bytes b = unhex(chunkHex[i]); all.insert(all.end(), b.begin(), b.end()); segs.push_back(b);}
       std::ostringstream o, orc;
       g_curCase = k;
-      alarm(watchdog);
+      arm_watchdog(watchdog);
       const std::string & t = head[0];
       const bool mustAccept = ((head.size() > 1)&&(head[1] == "v"));
       if (t == "msg") run_msg(k, all, o, orc, true, mustAccept);
@@ -957,13 +968,13 @@ int main(int, char **)
       else if (t == "mini") run_mini(k, all, o, orc, mustAccept);
       else if (t == "micro")
       {
-         alarm(0);
+         arm_watchdog(0);
          isolated(k, "micro", watchdog, [&](std::ostringstream & co, std::ostringstream & corc) {run_micro(k, all, co, corc, mustAccept);});
       }
       else if (t == "minigw") run_minigw(k, segs, o, orc);
       else if (t == "microgw")
       {
-         alarm(0);
+         arm_watchdog(0);
          const uint32 bs = (head.size() > 1) ? (uint32) strtoul(head[1].c_str(), NULL, 10) : 256;
          isolated(k, "microgw", watchdog, [&](std::ostringstream & co, std::ostringstream & corc) {run_microgw(k, bs, segs, co, corc);});
       }
@@ -984,7 +995,7 @@ int main(int, char **)
          o << "\n";
       }
       else o << k << " badtarget\n";
-      alarm(0);
+      arm_watchdog(0);
       fputs(o.str().c_str(), stdout);
       fputs(orc.str().c_str(), stdout);
       fflush(stdout);
